@@ -166,6 +166,19 @@ def run(ctx, prop):
                 continue
             variants.append(('seeded/' + d, ov, meta.get('rule')))
     baseline = set(f.key() for f in ctx.findings)
+    # the other direction: behaviour-preserving variants of the whole tree (sa/neutral.py) on which every rule must stay silent
+    from . import neutral
+    neutral_ids = []
+    if os.environ.get('VERIF_NO_NEUTRAL') != '1':
+        for kind in neutral.KINDS:
+            try:
+                ov = neutral.variant_sources(kind, sources)
+            except Exception as e:
+                ctx.error('SELFVAL', 'neutral/' + kind, 'variant could not be generated: %s' % e)
+                continue
+            vid = 'neutral/' + kind
+            neutral_ids.append(vid)
+            variants.append((vid, ov, '<none>'))
     jobs = [(prop, ctx.root, ov, vid) for vid, ov, rule in variants]
     results = {}
     if jobs:
@@ -176,9 +189,17 @@ def run(ctx, prop):
     detected = 0
     missed = []
     details = []
+    false_alarms = []
     for vid, ov, rule in variants:
         code, keys, errs = results.get(vid, (2, [], ['no result']))
         new = [k for k in keys if k not in baseline]
+        if vid in neutral_ids:
+            if new or errs:
+                false_alarms.append(vid)
+                details.append(dict(variant=vid, reported=new[:3], errors=errs[:2], note='ALARM on a behaviour-preserving variant'))
+            else:
+                details.append(dict(variant=vid, reported=[], note='silent, as required'))
+            continue
         hit = [k for k in new if (rule is None or k.split('|')[0].startswith(rule))]
         if hit:
             detected += 1
@@ -189,8 +210,13 @@ def run(ctx, prop):
         else:
             missed.append(vid)
             details.append(dict(variant=vid, reported=[], errors=errs[:2]))
-    ctx.selftest = dict(variants=len(variants), detected=detected, missed=missed, skipped=skipped, details=details[:80])
-    ctx.analysed['selfvalidation_variants'] = len(variants)
+    n_break = len(variants) - len(neutral_ids)
+    ctx.selftest = dict(variants=n_break, detected=detected, missed=missed, skipped=skipped, neutral_variants=len(neutral_ids),
+                        neutral_silent=len(neutral_ids) - len(false_alarms), neutral_alarms=false_alarms, details=details[:120])
+    ctx.analysed['selfvalidation_neutral_variants_silent'] = '%d of %d' % (len(neutral_ids) - len(false_alarms), len(neutral_ids))
+    for vid in false_alarms:
+        ctx.error('SELFVAL', vid, 'a rule of %s reports a behaviour-preserving variant of the current tree (false alarm in waiting)' % prop)
+    ctx.analysed['selfvalidation_variants'] = n_break
     ctx.analysed['selfvalidation_detected'] = detected
     ctx.analysed['selfvalidation_skipped'] = len(skipped)
     for v in missed:
